@@ -194,6 +194,135 @@ example : pathClash [.lit "a", .var "x"] [.lit "a", .lit "b"] = true ∧
   decide
 
 
+/-! ### What is accepted, and in any order -/
+
+/-- A template is acceptable on its own. -/
+def Internal (e : Endpoint V) : Prop := WildLast e.path ∧ (varNames e.path).Nodup
+
+/-- Two endpoints cannot both be registered. -/
+def PairConflict (a b : Endpoint V) : Prop :=
+  pathClash a.path b.path = true ∨
+    (a.path = b.path ∧ normMethod a.method = normMethod b.method ∧
+      Range.overlaps a.versions b.versions = true)
+
+theorem conflict_iff (es : List (Endpoint V)) (e : Endpoint V) :
+    Conflict es e ↔ ¬ Internal e ∨ ∃ e' ∈ es, PairConflict e' e := by
+  simp only [Conflict, Internal, PairConflict]
+  constructor
+  · rintro (h | h | h)
+    · exact Or.inl (fun hi => h hi.1)
+    · exact Or.inl (fun hi => h hi.2)
+    · exact Or.inr h
+  · rintro (h | h)
+    · by_cases hw : WildLast e.path
+      · exact Or.inr (Or.inl (fun hn => h ⟨hw, hn⟩))
+      · exact Or.inl hw
+    · exact Or.inr (Or.inr h)
+
+theorem pathClash_symm : ∀ (a b : List Seg), pathClash a b = pathClash b a
+  | [], b => by simp
+  | a :: as, [] => by simp
+  | a :: as, b :: bs => by
+    simp only [pathClash]
+    by_cases h : a = b
+    · subst h; simp [pathClash_symm as bs]
+    · have h' : ¬ b = a := fun e => h e.symm
+      simp only [h, h', if_false]
+      cases a <;> cases b <;> rfl
+
+theorem pairConflict_symm (a b : Endpoint V) : PairConflict a b ↔ PairConflict b a := by
+  simp only [PairConflict]
+  rw [pathClash_symm a.path b.path, C05.overlaps_comm a.versions b.versions]
+  constructor <;> rintro (h | ⟨h1, h2, h3⟩)
+  · exact Or.inl h
+  · exact Or.inr ⟨h1.symm, h2.symm, h3⟩
+  · exact Or.inl h
+  · exact Or.inr ⟨h1.symm, h2.symm, h3⟩
+
+/-- Registering `rest` on top of an accepted `pre` succeeds iff every new
+endpoint is acceptable on its own, conflicts with nothing registered before
+it, and they do not conflict among themselves. -/
+theorem insertAll_ok_iff : ∀ (rest pre : List (Endpoint V)) (t : Node V),
+    (∀ e ∈ pre ++ rest, Range.WF e.versions) → insertAll Node.empty pre = .ok t →
+    ((∃ t', insertAll t rest = .ok t') ↔
+      (∀ b ∈ rest, Internal b ∧ ∀ a ∈ pre, ¬ PairConflict a b) ∧
+        rest.Pairwise (fun a b => ¬ PairConflict a b))
+  | [], pre, t, _, _ => by simp [insertAll]
+  | e :: rest, pre, t, hr, hpre => by
+    have hrpre : ∀ x ∈ pre, Range.WF x.versions := fun x hx => hr x (by simp [hx])
+    have hiff := insert_error_iff pre t hrpre hpre e
+    rw [conflict_iff] at hiff
+    cases hins : t.insert e with
+    | error err =>
+      have hc := hiff.1 ⟨err, hins⟩
+      simp only [insertAll, hins, reduceCtorEq, exists_false, false_iff]
+      rintro ⟨h1, -⟩
+      have := h1 e (by simp)
+      rcases hc with hc | ⟨a, ha, hpc⟩
+      · exact hc this.1
+      · exact this.2 a ha hpc
+    | ok t1 =>
+      have hnc : ¬ (¬ Internal e ∨ ∃ e' ∈ pre, PairConflict e' e) := by
+        intro hc
+        obtain ⟨err, herr⟩ := hiff.2 hc
+        rw [hins] at herr; cases herr
+      simp only [not_or, not_exists, not_and] at hnc
+      have hint : Internal e := Classical.byContradiction hnc.1
+      have hpre1 : insertAll Node.empty (pre ++ [e]) = .ok t1 := by
+        have : ∀ (xs : List (Endpoint V)) (t0 : Node V), insertAll t0 xs = .ok t →
+            insertAll t0 (xs ++ [e]) = .ok t1 := by
+          intro xs
+          induction xs with
+          | nil => intro t0 h0; simp only [insertAll, Except.ok.injEq] at h0; subst h0; simp [insertAll, hins]
+          | cons x xs ih =>
+            intro t0 h0
+            simp only [insertAll, List.cons_append] at h0 ⊢
+            split at h0
+            · cases h0
+            · rename_i tx hx; exact ih tx h0
+        exact this pre Node.empty hpre
+      have ih := insertAll_ok_iff rest (pre ++ [e]) t1
+        (fun x hx => hr x (by simp only [List.mem_append, List.mem_cons, List.mem_singleton, List.not_mem_nil, or_false] at hx ⊢; grind)) hpre1
+      have hstep : (∃ t', insertAll t (e :: rest) = .ok t') ↔ (∃ t', insertAll t1 rest = .ok t') := by
+        simp only [insertAll, hins]
+      rw [hstep, ih]
+      simp only [List.mem_cons, forall_eq_or_imp, List.pairwise_cons]
+      constructor
+      · rintro ⟨h1, h2⟩
+        refine ⟨⟨⟨hint, fun a ha => hnc.2 a ha⟩, fun b hb => ⟨(h1 b hb).1, fun a ha => (h1 b hb).2 a (List.mem_append_left _ ha)⟩⟩,
+          fun b hb => (h1 b hb).2 e (List.mem_append_right _ (by simp)), h2⟩
+      · rintro ⟨⟨-, h1⟩, h2, h3⟩
+        refine ⟨fun b hb => ⟨(h1 b hb).1, fun a ha => ?_⟩, h3⟩
+        rcases List.mem_append.1 ha with ha | ha
+        · exact (h1 b hb).2 a ha
+        · have : a = e := by simpa using ha
+          subst this; exact h2 b hb
+
+/-- **C02, what is accepted.**  A sequence of registrations is accepted iff
+every endpoint is acceptable on its own and no two of them conflict. -/
+theorem accepted_iff (es : List (Endpoint V)) (hr : ∀ e ∈ es, Range.WF e.versions) :
+    (∃ t, insertAll Node.empty es = .ok t) ↔
+      (∀ e ∈ es, Internal e) ∧ es.Pairwise (fun a b => ¬ PairConflict a b) := by
+  have := insertAll_ok_iff es [] Node.empty (by simpa using hr) rfl
+  rw [this]
+  simp
+
+/-- **C01/C02, registration order does not matter for acceptance.**  Any
+permutation of an accepted sequence is accepted ("whichever of the two is
+registered first"). -/
+theorem acceptance_order_independent (es es' : List (Endpoint V)) (hp : es.Perm es')
+    (hr : ∀ e ∈ es, Range.WF e.versions) :
+    (∃ t, insertAll Node.empty es = .ok t) ↔ (∃ t', insertAll Node.empty es' = .ok t') := by
+  rw [accepted_iff es hr, accepted_iff es' (fun e he => hr e (hp.mem_iff.2 he))]
+  have hsymm : ∀ a b : Endpoint V, ¬ PairConflict a b → ¬ PairConflict b a :=
+    fun a b h h' => h ((pairConflict_symm b a).1 h')
+  constructor
+  · rintro ⟨h1, h2⟩
+    exact ⟨fun e he => h1 e (hp.mem_iff.2 he), (hp.pairwise_iff (fun {a b} => hsymm a b)).1 h2⟩
+  · rintro ⟨h1, h2⟩
+    exact ⟨fun e he => h1 e (hp.mem_iff.1 he), (hp.pairwise_iff (fun {a b} => hsymm a b)).2 h2⟩
+
+
 /-! ### The checks `register` runs before the router -/
 
 /-- **C02, tag policy.**  A published endpoint is accepted by the tag check
